@@ -56,11 +56,16 @@ UnionAtoms == {[kind |-> "unionhex", field |-> f, text |-> t] : f \in {"content"
 \* wrapped text string), against longer strings (wrapped text)
 CidAtoms == {[kind |-> "cidpart", text |-> t] : t \in {"M", "z", "2", "0", "_", "#", " ", "é", "ab", "2a", "CAND_MFST"}}
 
+\* authentication blocks: their order on the wire is the order of the description, whatever their keys are called - eleven and
+\* twelve blocks with the conventional names (..9, 10, 11: string order differs from numeric order), and a few blocks whose keys
+\* are listed against their numbering
+AuthAtoms == {[kind |-> "authblocks", n |-> n, names |-> o] : n \in {2, 3, 11, 12}, o \in {"ascending", "descending", "rotated"}}
+
 VARIABLES a
-Init == a \in Atoms \cup UnionAtoms \cup CidAtoms
+Init == a \in Atoms \cup UnionAtoms \cup CidAtoms \cup AuthAtoms
 Next == UNCHANGED a
 Spec == Init /\ [][Next]_a
 AtomIsKnown == a.kind \in {"policycmd", "index", "indexint", "nest", "paramint", "param", "seqnum", "hashalg", "signalg", "kid",
-                           "comparator", "textkey", "member", "strlen", "unionhex", "cidpart"}
+                           "comparator", "textkey", "member", "strlen", "unionhex", "cidpart", "authblocks"}
 Emit == EMIT => PrintT("SCN " \o ToJson(a))
 =============================================================================
